@@ -65,6 +65,9 @@ var loggerRecv = map[string]bool{
 	"github.com/youzan/ZanRedisDB/common.LevelLogger":  true,
 	"github.com/youzan/ZanRedisDB/common.MLevelLogger": true,
 	"github.com/youzan/ZanRedisDB/raft.DefaultLogger":  true,
+	"github.com/youzan/ZanRedisDB/common.MergeLogger":  true,
+	"github.com/youzan/ZanRedisDB/common.defaultLogger": true,
+	"github.com/youzan/ZanRedisDB/common.zapLogger":    true,
 }
 
 func recvName(fn *ssa.Function) string {
@@ -202,6 +205,7 @@ func buildStubs() map[string]stubFn {
 		in.assume(termArg(args[0]))
 		return nil
 	}
+	m["vsym.AssumeModel"] = m["vsym.Assume"]
 	m["vsym.Assert"] = func(in *Interp, fn *ssa.Function, args []Value) Value {
 		in.assertProp(termArg(args[0]), in.concStr(args[1], "assert message"))
 		return nil
@@ -242,7 +246,7 @@ func buildStubs() map[string]stubFn {
 		var parts []string
 		sl := args[1].(Slice)
 		for i := 0; i < sl.len; i++ {
-			parts = append(parts, in.fmtObserved(in.load(sl.arr.sub[sl.off+i])))
+			parts = append(parts, in.fmtObserved(in.load(sl.arr.at(sl.off+i))))
 		}
 		in.observed = append(in.observed, tag+"="+strings.Join(parts, ","))
 		if in.opts.ConcreteMode {
@@ -468,6 +472,39 @@ func buildStubs() map[string]stubFn {
 		return in.ctx.FIsNaN(termArg(args[0]))
 	}
 
+	// ---- math/bits (compiler intrinsics on amd64; table driven in the library source) ----
+	bitsLen := func(w int) stubFn {
+		return func(in *Interp, fn *ssa.Function, args []Value) Value {
+			x := termArg(args[0])
+			if x.IsConst() {
+				n := 0
+				for v := x.C; v != 0; v >>= 1 {
+					n++
+				}
+				return in.ctx.BVConst(uint64(n), 64)
+			}
+			res := in.ctx.BVConst(0, 64)
+			for i := 0; i < w; i++ {
+				res = in.ctx.Ite(in.ctx.ULE(in.ctx.BVConst(uint64(1)<<uint(i), x.S.W), x), in.ctx.BVConst(uint64(i+1), 64), res)
+			}
+			return res
+		}
+	}
+	m["math/bits.Len64"] = bitsLen(64)
+	m["math/bits.Len32"] = bitsLen(32)
+	m["math/bits.Len16"] = bitsLen(16)
+	m["math/bits.Len8"] = bitsLen(8)
+	m["math/bits.Len"] = bitsLen(64)
+	lz := func(w int) stubFn {
+		l := bitsLen(w)
+		return func(in *Interp, fn *ssa.Function, args []Value) Value {
+			return in.ctx.Sub(in.ctx.BVConst(uint64(w), 64), l(in, fn, args).(*sym.Term))
+		}
+	}
+	m["math/bits.LeadingZeros64"] = lz(64)
+	m["math/bits.LeadingZeros32"] = lz(32)
+	m["math/bits.LeadingZeros"] = lz(64)
+
 	// ---- hashing as uninterpreted functions ----
 	crcUF := func(in *Interp, crc *sym.Term, b []*sym.Term) *sym.Term {
 		// chain one byte at a time so that encoder and decoder agree however they chunk their writes
@@ -531,7 +568,7 @@ func buildStubs() map[string]stubFn {
 				if !in.branch(r.(*sym.Term)) {
 					break
 				}
-				a, b := s.arr.sub[s.off+j], s.arr.sub[s.off+j-1]
+				a, b := s.arr.at(s.off+j), s.arr.at(s.off+j-1)
 				va, vb := in.load(a), in.load(b)
 				in.store(a, vb)
 				in.store(b, va)
@@ -594,6 +631,18 @@ func buildStubs() map[string]stubFn {
 	m["regexp.Compile"] = reCompile
 	m["regexp.MustCompilePOSIX"] = reCompile
 
+	// ---- logger constructors: opaque zero objects (their methods are no-ops) ----
+	allocZero := func(in *Interp, fn *ssa.Function, args []Value) Value {
+		rt := fn.Signature.Results().At(0).Type()
+		if pt, ok := under(rt).(*types.Pointer); ok {
+			return Ptr{in.newCell(in.zero(pt.Elem()))}
+		}
+		return in.zero(rt)
+	}
+	for _, n := range []string{"NewDefaultLogger", "NewLogger", "newZapLogger", "NewMergeLogger"} {
+		m["github.com/youzan/ZanRedisDB/common."+n] = allocZero
+	}
+
 	// ---- misc runtime ----
 	m["runtime.Caller"] = zeroStub
 	m["runtime.Callers"] = zeroStub
@@ -611,7 +660,7 @@ func buildStubs() map[string]stubFn {
 
 // decideNoCheck is decide for alternatives that are all feasible by construction (fresh variable = i).
 func (in *Interp) decideNoCheck(k int, alts []*sym.Term) int {
-	return in.decide(k, alts)
+	return in.decideX(k, alts, true)
 }
 
 // floatBits implements math.Float64bits.
@@ -675,7 +724,7 @@ func (in *Interp) fmtObserved(v Value) string {
 				return "x"
 			}
 			if x.len > 0 {
-				if _, ok := x.arr.sub[x.off].v.(*sym.Term); !ok {
+				if _, ok := x.arr.at(x.off).v.(*sym.Term); !ok {
 					return fmt.Sprintf("slice[%d]", x.len)
 				}
 			}
@@ -713,7 +762,7 @@ func (in *Interp) sprintf(format Value, args Slice) Value {
 	}
 	var gargs []interface{}
 	for i := 0; i < args.len; i++ {
-		iv, ok := in.load(args.arr.sub[args.off+i]).(Iface)
+		iv, ok := in.load(args.arr.at(args.off+i)).(Iface)
 		if !ok || iv.t == nil {
 			gargs = append(gargs, nil)
 			continue
